@@ -182,6 +182,13 @@ fn run_target_path(hs: &[Content], path: &[(usize, usize)]) -> Result<(), String
 pub enum POp {
     Init(usize),
     Clear,
+    /// `init_from` with out-of-contract argument #k (refused by a panic, which is caught)
+    Refused(usize),
+}
+/// after a refused initialisation nothing is assumed about which string the array holds
+const UNKNOWN: usize = usize::MAX;
+fn refused_args() -> Vec<Vec<u8>> {
+    vec![vec![64, 1, 2, 3], vec![1, 2, 3, 255], (0..65u8).map(|k| k % 64).collect(), (0..256usize).map(|k| (k % 64) as u8).collect(), vec![7; 320]]
 }
 #[derive(Clone, Debug)]
 pub struct PS {
@@ -211,12 +218,24 @@ fn build(strs: &[Vec<u8>], ops: &[POp]) -> Result<BlockHashPositionArray, String
         match op {
             POp::Init(i) => guarded(|| pa.init_from(&strs[*i]))?,
             POp::Clear => guarded(|| pa.clear())?,
+            POp::Refused(k) => {
+                let bad = &refused_args()[*k];
+                let _ = guarded(|| pa.init_from(bad));
+            }
         }
     }
     Ok(pa)
 }
 fn judge_pa(strs: &[Vec<u8>], s: &PS) -> Result<(), String> {
     let pa = build(strs, &s.ops)?;
+    if s.last == Some(UNKNOWN) {
+        // a refused initialisation: the array must still pass its validity check (and the queries must not panic)
+        if !guarded(|| pa.is_valid())? {
+            return Err(format!("position array is invalid after a refused init_from ({:?})", s.ops));
+        }
+        guarded(|| format!("{:?} {} {}", pa, pa.len(), pa.is_empty()))?;
+        return Ok(());
+    }
     let cur: Vec<u8> = match s.last {
         Some(i) => strs[i].clone(),
         None => vec![],
@@ -257,6 +276,9 @@ impl Model for PaModel {
                 a.push(POp::Init(i));
             }
             a.push(POp::Clear);
+            for k in 0..refused_args().len() {
+                a.push(POp::Refused(k));
+            }
         }
     }
     fn next_state(&self, s: &PS, op: POp) -> Option<PS> {
@@ -270,6 +292,7 @@ impl Model for PaModel {
         let last = match op {
             POp::Init(i) => Some(i),
             POp::Clear => None,
+            POp::Refused(_) => Some(UNKNOWN),
         };
         Some(PS { ops, key: Arc::new(key), last })
     }
@@ -351,6 +374,10 @@ pub fn replay(c: &Value) -> Result<(), String> {
                         ops.push(POp::Clear);
                         last = None;
                     }
+                    Some(k) if k < -1 => {
+                        ops.push(POp::Refused((-k - 2) as usize));
+                        last = Some(UNKNOWN);
+                    }
                     Some(i) => {
                         ops.push(POp::Init(i as usize));
                         last = Some(i as usize);
@@ -372,7 +399,7 @@ fn target_case(hs: &[Content], path: &[(usize, usize)]) -> Value {
 }
 fn pa_case(strs: &[Vec<u8>], ops: &[POp]) -> Value {
     json!({"kind": "pa", "strings": strs.iter().map(|s| hex(s)).collect::<Vec<_>>(),
-           "ops": ops.iter().map(|o| match o { POp::Init(i) => *i as i64, POp::Clear => -1 }).collect::<Vec<_>>()})
+           "ops": ops.iter().map(|o| match o { POp::Init(i) => *i as i64, POp::Clear => -1, POp::Refused(k) => -2 - *k as i64 }).collect::<Vec<_>>()})
 }
 
 pub fn run(ctx: &Ctx) -> Report {
@@ -435,6 +462,7 @@ pub fn run(ctx: &Ctx) -> Report {
             last = match o {
                 POp::Init(i) => Some(*i),
                 POp::Clear => None,
+                POp::Refused(_) => Some(UNKNOWN),
             };
             if let Err(e) = judge_pa(&strs, &PS { ops: acc_ops.clone(), key: Arc::new(String::new()), last }) {
                 what = e;
@@ -499,7 +527,7 @@ pub fn run(ctx: &Ctx) -> Report {
     );
     rep.set(
         "rule",
-        "comparison target: BFS over the real FuzzyHashCompareTarget under init_from(h) for every h of a corpus of normalized hashes with differing lengths (0, 1, 7, 8, 32, 33, 63, 64 symbols), symbols and block sizes, each given as LongFuzzyHash, FuzzyHash, LongDualFuzzyHash, DualFuzzyHash operands to init_from and through the by-reference and by-value From impls; the space closes at |H|+1 states iff nothing is carried over, so initialisation sequences of ANY length are covered; in every state: is_valid, full_eq a fresh target, is_equiv exactly the last hash, compare and is_comparison_candidate against every corpus hash equal the fresh target's, the block hash accessors represent the strings.  position array: all clear / init_from histories to the depth bound over a string corpus (not normalized strings included): equals a fresh array, len, is_valid, is_valid_and_normalized, is_equiv, has_common_substring, edit_distance agree with the string.",
+        "comparison target: BFS over the real FuzzyHashCompareTarget under init_from(h) for every h of a corpus of normalized hashes with differing lengths (0, 1, 7, 8, 32, 33, 63, 64 symbols), symbols and block sizes, each given as LongFuzzyHash, FuzzyHash, LongDualFuzzyHash, DualFuzzyHash operands to init_from and through the by-reference and by-value From impls; the space closes at |H|+1 states iff nothing is carried over, so initialisation sequences of ANY length are covered; in every state: is_valid, full_eq a fresh target, is_equiv exactly the last hash, compare and is_comparison_candidate against every corpus hash equal the fresh target's, the block hash accessors represent the strings.  position array: all clear / init_from / refused init_from (5 out-of-contract arguments: symbols 64 / 255, 65 / 256 / 320 symbols; the panic is caught; afterwards only validity is demanded until the next successful initialisation) histories to the depth bound over a string corpus (not normalized strings included): equals a fresh array, len, is_valid, is_valid_and_normalized, is_equiv, has_common_substring, edit_distance agree with the string.",
     );
     rep
 }
